@@ -138,7 +138,7 @@ theorem icmpInfo4_quote {ty code id seq : Nat} {qtos qlen qid qff qttl qproto qc
     (h4 : qid < 65536) (h5 : qff < 65536) (h6 : qttl < 256) (h7 : qproto < 256) :
     icmpInfo4 { type := ty, code := code, id := id, seq := seq,
                 payload := rawHdr4 qtos qlen qid qff qttl qproto qck qsrc qdst ++ l4x } =
-      some { wrappedId := qid, qsrc := qsrc, qdst := qdst, payload := l4x.take (qlen - 20) } := by
+      some { wrappedId := qid, proto := qproto, qsrc := qsrc, qdst := qdst, payload := l4x.take (qlen - 20) } := by
   unfold icmpInfo4
   simp only
   rw [ip4_rawHdr4 hs hd h1 h2 h3 h4 h5 h6 h7]
